@@ -26,7 +26,7 @@ CONSTANTS Provs, Chains, Dels, Vals,
           MinSelf,       \* dualstaking param MinSelfDelegation (100 in the test keepers)
           MinSpec,       \* spec.MinStakeProvider (1000 in the mock spec)
           Fixed,         \* FALSE: the code as it is (findings F6, stale entry on auto-unfreeze, move to the same chain);
-                         \* TRUE: the code with fixes/F6_*, fixes/F22_*, fixes/F23_* applied
+                         \* TRUE: the code with fixes/F6_*, F6b_*, F6c_* applied
           MaxOps, GenHist
 
 VARIABLES e, m, dg, vd, nops, hist, lastp
